@@ -246,7 +246,7 @@ def finish(pid, tier, seed, t0, part, rule, level='exploration', exhaustive=True
                 break
         else:
             new.append(sig)
-    rdir = os.path.join(VERIF, 'replays', pid)
+    rdir = os.path.join(os.environ.get('VERIF_REPLAYS', os.path.join(VERIF, 'replays')), pid)
     lines = []
     for sig in hits:
         lines.append('KNOWN-FINDING: property=%s %s' % (pid, ksigs[sig].get('what', sig)))
@@ -300,11 +300,12 @@ def finish(pid, tier, seed, t0, part, rule, level='exploration', exhaustive=True
         pass
     except Exception as e:   # invalid evidence is a harness error, never silent
         harness_error('evidence does not validate: %s' % str(e)[:500])
-    os.makedirs(os.path.join(VERIF, 'evidence'), exist_ok=True)
-    tmp = os.path.join(VERIF, 'evidence', '.%s.json.tmp' % pid)
+    edir = os.environ.get('VERIF_EVIDENCE', os.path.join(VERIF, 'evidence'))
+    os.makedirs(edir, exist_ok=True)
+    tmp = os.path.join(edir, '.%s.json.tmp' % pid)
     with open(tmp, 'w') as f:
         json.dump(ev, f, indent=1, sort_keys=True)
-    os.replace(tmp, os.path.join(VERIF, 'evidence', '%s.json' % pid))
+    os.replace(tmp, os.path.join(edir, '%s.json' % pid))
     print('%s tier=%s seed=%s evaluations=%d distinct_nontrivial=%d outcomes=%d known_hits=%d new=%d wall=%.1fs' % (
         pid, tier, seed, part.n, len(part.keys), len(part.outcomes), len(hits), len(new), time.time() - t0))
     if level == 'model_checking':
